@@ -52,7 +52,14 @@ type AuthorizerOption func(w *authorizer)
 
 func WithWorldOptions(opts ...datalog.WorldOption) AuthorizerOption {
 	return func(a *authorizer) {
-		a.baseWorld = datalog.NewWorld(opts...)
+		// applied on top of what earlier options configured: a second WithWorldOptions keeps the
+		// limits given by the first
+		if a.baseWorld == nil {
+			a.baseWorld = datalog.NewWorld()
+		}
+		for _, opt := range opts {
+			opt(a.baseWorld)
+		}
 	}
 }
 
